@@ -507,7 +507,7 @@ class DBStorage(BaseStorage):
 
 
 class Subscription(BaseSubscription):
-    __slots__ = ("is_postgres",)
+    __slots__ = ("is_postgres", "bind_values")
 
     def __init__(
         self,
@@ -516,6 +516,7 @@ class Subscription(BaseSubscription):
     ):
         super().__init__(*args, **kwargs)
         self.is_postgres = self.storage.is_postgres
+        self.bind_values = {}
 
     def prepare(self):
         try:
@@ -608,19 +609,29 @@ class Subscription(BaseSubscription):
             subwhere.append("created_at < %d" % filter_obj.until)
         if filter_obj.tags:
             for tagname, tags in filter_obj.tags:
+                # tag names and values are client-controlled text: always bind them
                 pstr = []
                 for val in tags:
-                    if val:
-                        val = val.replace("'", "''")
-                        pstr.append(f"'{val}'")
+                    pstr.append(self.bind(val))
                 if pstr:
                     pstr = ",".join(pstr)
                     subwhere.append(
-                        f"id IN (SELECT id FROM tags WHERE name = '{tagname}' AND value IN ({pstr})) "
+                        f"id IN (SELECT id FROM tags WHERE name = {self.bind(tagname)} AND value IN ({pstr})) "
                     )
+                else:
+                    raise ValueError("tags")
         return filter_obj
 
+    def bind(self, value):
+        """
+        Register a bound parameter for the query, returning its placeholder
+        """
+        name = f"p{len(self.bind_values)}"
+        self.bind_values[name] = value
+        return f":{name}"
+
     def build_query(self, filters):
+        self.bind_values = {}
         select = """
             SELECT id, created_at, kind, pubkey, tags, sig, content FROM events
         """
@@ -629,12 +640,14 @@ class Subscription(BaseSubscription):
         new_filters = []
         for filter_obj in filters:
             subwhere = []
+            bound = dict(self.bind_values)
             try:
                 filter_obj = self.evaluate_filter(filter_obj, subwhere)
             except ValueError:
                 self.log.debug("bad query %s", filter_obj)
                 filter_obj = NostrQuery()
                 subwhere = []
+                self.bind_values = bound
             if subwhere:
                 subwhere = " AND ".join(subwhere)
                 where.add(subwhere)
@@ -653,7 +666,10 @@ class Subscription(BaseSubscription):
             ORDER BY created_at DESC
             LIMIT {limit}
         """
-        return sa.text(select), new_filters
+        query = sa.text(select)
+        if self.bind_values:
+            query = query.bindparams(**self.bind_values)
+        return query, new_filters
 
 
 class QueryGarbageCollector(BaseGarbageCollector):
